@@ -117,6 +117,13 @@ func init() {
 		},
 		"ngap_codec": func() job {
 			return func(g, i int) string {
+				if i%40 == 0 {
+					// now and then a message the encoder refuses (AMF-UE-NGAP-ID 2^40): what a refusal leaves behind must not
+					// reach anybody else's message
+					if _, e := tglib.GetUplinkNASTransport(int64(1)<<40, int64(g), []byte{0x7e, 0, byte(g)}); e == nil {
+						return "out-of-range-id-encoded"
+					}
+				}
 				b, err := tglib.GetUplinkNASTransport(int64(g)*1000+int64(i), int64(g), []byte{0x7e, 0, byte(g), byte(i)})
 				if err != nil {
 					return "err"
